@@ -85,7 +85,9 @@ class Normalizer:
             if _is_num(nb) and not db:
                 v = z3.simplify(nb > 0)
                 if z3.is_true(v):
-                    return (fa[0] / nb, fa[1])
+                    if z3.is_true(z3.simplify(nb == 1)):
+                        return fa
+                    return (fa[0], fa[1] + [nb])
                 return (t, [])
             if self.positive(nb if not db else ch[1]) and not db:
                 return (fa[0], fa[1] + [nb])
@@ -205,6 +207,28 @@ class Normalizer:
 
 
 def has_nonconst_div(assertions):
+    return has_div(assertions)
+
+
+def has_div(assertions):
+    seen = set()
+    stack = list(assertions)
+    while stack:
+        t = stack.pop()
+        if t.get_id() in seen:
+            continue
+        seen.add(t.get_id())
+        if z3.is_quantifier(t):
+            stack.append(t.body())
+            continue
+        if z3.is_app(t):
+            if t.decl().kind() == z3.Z3_OP_DIV and z3.is_real(t):
+                return True
+            stack.extend(t.children())
+    return False
+
+
+def _old_has_nonconst_div(assertions):
     seen = set()
     stack = list(assertions)
     while stack:
